@@ -20,7 +20,7 @@ TECHNIQUE = 'dense grid sweep + explicit boundary probing against NIST reference
 RULE = ('8 types x {forward, inverse, totality, boundaries, scaling}; grid blocks of 12,500 points; non-trivial = every grid block; distinct = '
         '(type, part, block)')
 ASSUMPTIONS = ['NIST inverse functions are only specified on their validity range; outside it only totality (no NaN) is required']
-REQUIRED = ['chained_scalings', 'default_direction_cases', 'purity_calls', 'forward_points', 'inverse_points', 'boundary_probes', 'monotone_pairs', 'totality_points', 'scaling_points', 'through_channel']
+REQUIRED = ['block_size_points', 'window_pairs', 'single_precision_channels', 'chained_scalings', 'default_direction_cases', 'purity_calls', 'forward_points', 'inverse_points', 'boundary_probes', 'monotone_pairs', 'totality_points', 'scaling_points', 'through_channel']
 TYPES = 'BEJKNRST'
 CODES = {'B': 10047, 'E': 10055, 'J': 10072, 'K': 10073, 'N': 10077, 'R': 10082, 'S': 10085, 'T': 10086}
 BANDS = {
@@ -43,6 +43,7 @@ def gen_cases(tier, seed):
             yield {'k': 'forward', 't': L, 'b': b, 'nb': BLOCKS[tier]}
             yield {'k': 'inverse', 't': L, 'b': b, 'nb': BLOCKS[tier]}
         yield {'k': 'boundaries', 't': L}
+        yield {'k': 'sizes', 't': L}
         yield {'k': 'totality', 't': L}
         for d in (0, 1):
             yield {'k': 'scaling', 't': L, 'd': d, 's': seed}
@@ -92,7 +93,7 @@ def impl(L):
 
 
 def run_case(case, ctx):
-    {'forward': forward, 'inverse': inverse, 'boundaries': boundaries, 'totality': totality, 'scaling': scaling}[case['k']](case, ctx)
+    {'forward': forward, 'inverse': inverse, 'boundaries': boundaries, 'totality': totality, 'scaling': scaling, 'sizes': sizes}[case['k']](case, ctx)
 
 
 def grid(lo, hi, b, nb):
@@ -122,6 +123,35 @@ def forward(case, ctx):
         i = int(np.nonzero(viol)[0][0])
         ctx.violation('forward-not-increasing/%s' % L, {'T': float(T[i]), 'T_next': float(T[i + 1]), 'v': float(got[i]), 'v_next': float(got[i + 1])})
     ctx.sample({'case': case, 'T_range': [float(T[0]), float(T[-1])]}, limit=1)
+
+
+def sizes(case, ctx):
+    """Array lengths at powers of two and their multiples, kept inside one piece and spread over all pieces."""
+    L = case['t']
+    table = ref_table(L)
+    th = impl(L)
+    for n in (32768, 65536, 3 * 32768, 65537, 4096, 1 << 17):
+        for lo, hi in [(table[0][0], table[-1][1])] + [(p[0], p[1]) for p in table]:
+            T = np.linspace(lo, hi, n, endpoint=False)
+            want, bound = ref_eval(table, T)
+            got = th.celsius_to_mv(T.copy())
+            ctx.evaluation(n)
+            ctx.count('block_size_points', n)
+            bad = ~(np.abs(got - want) <= 4 * np.finfo('f8').eps * bound + 1e-300)
+            if bad.any():
+                i = int(np.nonzero(bad)[0][0])
+                ctx.violation('forward-differs-from-NIST/array-length-dependent/%s' % L, {'n': n, 'index': i, 'T': float(T[i]), 'got': float(got[i]), 'want': float(want[i])})
+            lo_i, hi_i = BANDS[L][0][0], BANDS[L][-1][1]
+            Ti = np.linspace(max(lo, lo_i), min(hi, hi_i), n, endpoint=False) if max(lo, lo_i) < min(hi, hi_i) else None
+            if Ti is not None:
+                V, _ = ref_eval(table, Ti)
+                err = th.mv_to_celsius(V.copy()) - Ti
+                blo, bhi = band_for(L, Ti)
+                badi = ~((err >= blo) & (err <= bhi))
+                if badi.any():
+                    i = int(np.nonzero(badi)[0][0])
+                    ctx.violation('inverse-outside-NIST-error-band/array-length-dependent/%s' % L, {'n': n, 'index': i, 'T': float(Ti[i]), 'error': float(err[i])})
+    ctx.distinct((L, 'sizes'))
 
 
 def band_for(L, T):
@@ -218,8 +248,24 @@ def scaling(case, ctx):
     inputs = T if d == 1 else Vmv * 1000.0
     props = SG.graph_props([desc])
     segs = M.build_file(random.Random(0), [('g', 'c', 'f64', len(inputs), props)], nseg=1, nchunks=(1,), values_fn=lambda p, t, n: inputs)
-    through = TdmsFile.read(io.BytesIO(M.encode_file(segs)[0]))['g']['c'][:]
+    ech = TdmsFile.read(io.BytesIO(M.encode_file(segs)[0]))['g']['c']
+    through = ech[:]
     ctx.count('through_channel')
+    nwin = 100
+    for o1, o2 in ((0, nwin), (nwin, 3 * nwin), (7, 211)):
+        w1, w2 = ech.read_data(o1, nwin), ech.read_data(o2, nwin)
+        ctx.count('window_pairs')
+        if not (np.array_equal(w1, through[o1:o1 + nwin], equal_nan=True) and np.array_equal(w2, through[o2:o2 + nwin], equal_nan=True)):
+            ctx.violation('scaling/same-length-windows-at-different-offsets-disagree/%s' % L, {'direction': d, 'offsets': (o1, o2)})
+    # a single precision raw channel: declared float64, and as accurate as the (rounded) input allows
+    in32 = inputs.astype('f4')
+    segs32 = M.build_file(random.Random(0), [('g', 'c', 'f32', len(in32), props)], nseg=1, nchunks=(1,), values_fn=lambda p, t, n: in32)
+    got32 = TdmsFile.read(io.BytesIO(M.encode_file(segs32)[0]))['g']['c'][:]
+    ref32 = sc.scale(in32.astype('f8'))
+    ctx.count('single_precision_channels')
+    if got32.dtype != np.dtype('f8') or not np.allclose(got32, ref32, rtol=1e-12, atol=1e-9, equal_nan=True):
+        ctx.violation('scaling/single-precision-channel/%s' % L, {'direction': d, 'dtype': str(got32.dtype),
+                                                                 'max_abs_diff': float(np.nanmax(np.abs(got32.astype('f8') - ref32)))})
     x = np.array(inputs, dtype='f8')
     keep = x.tobytes()
     direct = sc.scale(x)
